@@ -58,6 +58,8 @@ CONFIGS = {
                                  Ops={"dot", "cross", "mixed", "norm", "addv"}), ["TypeOK"]),
         ("samecross", "val", _cfg(MaxLen=7, MaxVec=5, Ints={2, 3}, **SAME_CROSS_NEG), ["TypeOK"]),
         ("samecross9", "val", _cfg(MaxLen=9, MaxVec=5, Ints={2}, **SAME_CROSS), ["TypeOK"]),
+        ("diffscaled", "diff", _cfg(MaxLen=4, MaxVec=2, VecLeaves={1, 5, 8, 9}, ScalLeaves={3}, Pows={2},
+                                    Ops={"scalev", "neg", "dot", "cross", "norm", "addv"}), ["TypeOK"]),
         ("diff", "diff", _cfg(MaxLen=5, MaxVec=3, VecLeaves={1, 5, 6, 7}, ScalLeaves={3}, Pows={2, -1}), ["TypeOK"]),
     ],
     "thorough": [
@@ -69,6 +71,8 @@ CONFIGS = {
                                  Ops={"dot", "cross", "mixed", "norm", "addv", "neg"}), ["TypeOK"]),
         ("samecross", "val", _cfg(MaxLen=9, MaxVec=5, Ints={2, 3}, **SAME_CROSS_NEG), ["TypeOK"]),
         ("samecross11", "val", _cfg(MaxLen=11, MaxVec=6, Ints={2}, **SAME_CROSS), ["TypeOK"]),
+        ("diffscaled", "diff", _cfg(MaxLen=6, MaxVec=3, VecLeaves={1, 5, 8, 9}, ScalLeaves={3}, Pows={2},
+                                    Ops={"scalev", "neg", "dot", "cross", "mixed", "norm", "addv"}), ["TypeOK"]),
         ("diff", "diff", _cfg(MaxLen=7, MaxVec=4, VecLeaves={1, 5, 6, 7}, ScalLeaves={3}, Pows={2, -1}), ["TypeOK"]),
     ],
 }
@@ -139,7 +143,13 @@ def replay_one(job):  # pylint: disable=too-many-locals,too-many-branches,too-ma
             except vx.Outside:
                 continue
             if not vx.same_value(mkind, model[i][1], got):
-                raise HarnessBug(f"{vx.prog_str(prog)}: as written evaluates to {vx.show(got)}, model {job['r'][i]}")
+                # the constructors with evaluate=False did not keep the expression as written (e.g. operands
+                # reordered): evaluation "on request" then starts from another expression - the library's doing
+                out.append(dict(mode="as-written", status="violation",
+                                what=f"assignment {i + 1}: the expression held back with evaluate=False has value "
+                                     f"{vx.show(got)}, the expression as written {vx.show((mkind, model[i][1]))}; "
+                                     f"constructed: {str(raw)[:160]}"))
+                break
     modes = [("auto", "val", lambda: vx.build(prog, leaves, evaluate=True))]
     if raw is not None:
         modes.append(("doit", "val", raw.doit))
@@ -169,6 +179,9 @@ def replay_one(job):  # pylint: disable=too-many-locals,too-many-branches,too-ma
             continue
         if res[0] == "recursion":
             out.append(dict(mode=mode, status="violation", what="evaluation raised RecursionError (no expression returned)"))
+            continue
+        if res[0] == "raised" and res[1] == "NotImplementedError":
+            out.append(dict(mode=mode, status="outside", what="the library declines: NotImplementedError"))
             continue
         if res[0] == "raised":
             out.append(dict(mode=mode, status="violation",
@@ -291,6 +304,8 @@ def run_config(run: Run, sc, pool, label, kind, consts, invariants, strength, ca
     for c in programs:
         if kind == "diff" and not any(op == "vec" and k >= 5 or op == "scal" and k == 3 for op, k in c["p"]):
             continue                      # nothing depends on t
+        if label == "diffscaled" and not any(op == "vec" and k >= 8 for op, k in c["p"]):
+            continue                      # covered by the diff configuration
         sig = vx.signature(c["p"])
         chosen, ncov, nuni = apool.assignments(sig, strength, cap)
         if ncov < nuni:
